@@ -27,6 +27,9 @@ class FileIdStack:
     def clear(self) -> None:
         self._stack.clear()
 
+    def __contains__(self, fileid: object) -> bool:
+        return fileid in self._stack
+
     @property
     def root(self) -> FileId:
         return self._stack[0]
